@@ -1,6 +1,6 @@
 (* Proofs/UdistCor.v — corollaries about UDist.CDF as a function of the real argument. *)
 From Coq Require Import List ZArith Lia Arith Bool QArith Qround Lqa.
-From MM Require Import Base.Num Base.GEComb Spec.Ucount Proofs.Ucount Model.Choose Model.Udist
+From MM Require Import Base.Num Base.GEComb Spec.Ucount Proofs.Ucount Model.GEChoose Model.Udist
   Proofs.Udist Proofs.UdistTied Proofs.UdistTable Proofs.UdistLaws Proofs.UdistUntied.
 Import ListNotations.
 Local Open Scope Q_scope.
